@@ -114,6 +114,8 @@ def report_signature(block):
                 if loc not in locs:
                     locs.append(loc)
                 break
+    if "ThreadSanitizer" in kind and len(locs) >= 2:
+        locs = sorted(locs[:2]) + locs[2:]      # the order of the two racing accesses is schedule dependent
     return kind + " @ " + ">".join(locs[:3])
 
 
